@@ -196,6 +196,15 @@ func (d *duplexHTTPCall) CloseRead() error {
 		return nil
 	}
 	verifYield(d.ctx, "closeread.discard")
+	if callErr := d.getError(); d.response.ProtoMajor >= 2 && callErr != nil && !errors.Is(callErr, io.EOF) {
+		// The call has already failed, so nobody wants the rest of the response,
+		// and its end may never come: after a status above 299 net/http's HTTP/2
+		// transport stops uploading the request without telling the server, and a
+		// server that reads the request to its end before it ends the response
+		// then waits for us. Closing the body is what resets the stream. Draining
+		// would gain nothing here: on HTTP/2 it isn't needed for connection reuse.
+		return wrapIfRSTError(d.response.Body.Close())
+	}
 	if err := discard(d.response.Body); err != nil {
 		// Reading the rest of the body failed, but the body still has to be
 		// closed or the transport never releases the stream.
